@@ -506,7 +506,8 @@ def check(prop, tier, seed):
 def replay(path):
     v = json.load(open(path))
     spec = PROPS[v['property']]
-    stage = [s for s in spec['stages'] if s['harness'] == v['harness'] and s.get('mode', '') == v.get('mode', '')][0]
+    cand = [s for s in spec['stages'] if s['harness'] == v['harness'] and s.get('mode', '') == v.get('mode', '')]
+    stage = ([s for s in cand if s['variant'] == v.get('variant')] or cand)[0]
     exe = build_harness(stage['harness'], stage['variant'], stage.get('ldextra'))
     outdir = os.path.join(BUILD, 'runs', 'replay.%d' % os.getpid())
     os.makedirs(outdir, exist_ok=True)
